@@ -175,6 +175,18 @@ func genGate(r *Rng, prop string, k int) *RunSpec {
 				}
 			}
 		}
+		if (kind == "getInbox" || kind == "getOutbox") && len(reqs) > 0 && r.Intn(3) == 0 {
+			// the same page asked for again, after an earlier request of this run was answered - with another authentication outcome
+			for j := len(reqs) - 1; j >= 0; j-- {
+				if reqs[j].Kind == kind {
+					rq.Actor, rq.After = reqs[j].Actor, []string{reqs[j].ID}
+					rq.Method, rq.Accept, rq.ContentType = reqs[j].Method, reqs[j].Accept, reqs[j].ContentType
+					ge.Method, ge.Hdr = ex.Req[reqs[j].ID].Method, ex.Req[reqs[j].ID].Hdr
+					rq.Auth = Pick(r, []string{"err", "deny", "errtrue", "ok"})
+					break
+				}
+			}
+		}
 		// a request whose context is already done when it arrives (the client went away): classification and checks as ever
 		if r.Intn(12) == 0 {
 			rq.CtxDone = Pick(r, []string{"canceled", "deadline"})
@@ -374,8 +386,27 @@ func appEvents(res *Result, id string) int {
 	return n
 }
 
+// oracleDefaultCbErr: when the application's default callback returns an error - whatever error value - the request ends
+// handled with that error and nothing written by the library (the middle one of the three end states).
+func oracleDefaultCbErr(res *Result) {
+	s := res.Sim
+	for _, e := range s.Log {
+		if !e.Fault || !strings.HasPrefix(e.Kind, "app.cb.") || !strings.Contains(e.Kind, ".default.") {
+			continue
+		}
+		t := s.byID[e.Task]
+		if t == nil || t.Parent != nil || t.Req == nil || !t.done || t.Panic != nil || t.EntryKind == "send" {
+			continue
+		}
+		if t.Err == nil || t.Rec.Wrote() {
+			s.violate("C10", "callback-error-not-reported", t.EntryKind, fmt.Sprintf("the application's default callback returned an error for %s; the request ended with err=%v and library status %d", e.ID, t.Err, t.Rec.Status))
+		}
+	}
+}
+
 func oracleGate(c *DriveCtx, res *Result) {
 	oracleCustom(res)
+	oracleDefaultCbErr(res)
 	if res.Spec.Expect == nil {
 		return
 	}
